@@ -360,6 +360,70 @@ def _min_len_known(S, cfg, bb, arg_term, need, P, fn):
     return None
 
 
+_CALLERS_CACHE = {}
+
+
+def _callers(P):
+    """callee path -> [(caller fn, bb, terminator)] over the dashu crates of this program; plus the set of
+    functions whose address is taken (those cannot be discharged through their call sites)"""
+    k = id(P)
+    if k not in _CALLERS_CACHE:
+        idx, taken = {}, set()
+        for g in P.fns():
+            if not g["crate"].startswith("dashu") or not g.get("mir"):
+                continue
+            for bb, t, f in mir.iter_calls(g["mir"], reachable_only=False):
+                cp = f and (f.get("rp") or f["p"])
+                if cp:
+                    idx.setdefault(cp, []).append((g, bb, t))
+            for i, j, s_ in mir.iter_stmts(g["mir"], reachable_only=False):
+                if s_["k"] == "as":
+                    c = mir.op_const(s_["rv"].get("a", {})) if s_["rv"].get("k") == "use" else None
+                    if isinstance(c, dict) and c.get("fn"):
+                        taken.add(c["fn"].get("p"))
+        _CALLERS_CACHE.clear()
+        _CALLERS_CACHE[k] = (idx, taken)
+    return _CALLERS_CACHE[k]
+
+
+def _min_len_interproc(P, fn, arg_term, need, depth=0, trail=()):
+    """(c) the argument is a parameter of the caller handed on unchanged: the obligation moves to every
+    call site of the caller (who-may-call), recursively up to depth 4"""
+    t = arg_term
+    while isinstance(t, tuple) and t[0] in ('ref', 'refmut'):
+        t = t[1]
+    t = strip_bb(t)
+    if isinstance(t, tuple) and t[0] == 'place' and t[2] == ('*',):
+        t = strip_bb(t[1])
+    if not (isinstance(t, tuple) and t[0] == 'arg') or depth >= 4 or fn["p"] in trail:
+        return None
+    if fn.get("vis") == "public" and not fn["p"].startswith("dashu_int::") :
+        return None
+    k = t[1] - 1
+    idx, taken = _callers(P)
+    if fn["p"] in taken or fn.get("kind") == "Closure":
+        return None
+    sites = idx.get(fn["p"], [])
+    if not sites:
+        return None
+    whys = []
+    for (g, bb, tt) in sites:
+        if k >= len(tt["a"]):
+            return None
+        Sg = sym.Sym(g)
+        cg = mir.cfg_of(g["mir"])
+        if bb not in cg.reachable():
+            continue
+        a = Sg.operand(tt["a"][k])
+        w = _min_len_known(Sg, cg, bb, a, need, P, g) or _min_len_interproc(P, g, a, need, depth + 1, trail + (fn["p"],))
+        if not w:
+            return None
+        whys.append("%s: %s" % (g["p"].rsplit("::", 1)[-1], w))
+    if not whys:
+        return None
+    return "parameter handed on unchanged; every call site of %s establishes it (%s)" % (fn["p"].rsplit("::", 1)[-1], "; ".join(sorted(set(whys)))[:300])
+
+
 def _r17_6(res, P, cfgname):
     sites = 0
     assumed = 0
@@ -373,7 +437,7 @@ def _r17_6(res, P, cfgname):
             cfg = mir.cfg_of(fn["mir"])
             sites += 1
             arg = S.operand(t["a"][0])
-            why = _min_len_known(S, cfg, bb, arg, DEBUG_ONLY[cp], P, fn)
+            why = _min_len_known(S, cfg, bb, arg, DEBUG_ONLY[cp], P, fn) or _min_len_interproc(P, fn, arg, DEBUG_ONLY[cp])
             key = "%s called in %s" % (cp.rsplit("::", 1)[1], fn["p"])
             if why:
                 res.ok("R17.6", cfgname, key, sample=dict(caller=fn["p"], callee=cp, discharge=why))
